@@ -427,7 +427,7 @@ theorem setRelationsCore_more (run : ProbeRunner) {w : World} {fl : List Nat} (h
     · exact Or.inl ⟨r, hr, hi⟩
   have hlen' : (setTargets (w.tbl oldT).colIdx rels (w.tbl oldT).targets).length =
       (w.tbl oldT).ids.length := by rw [setTargets_length, hTex.tlen]
-  obtain ⟨ch, cm, hx, hfalse, htrue⟩ := getExchangeTargets_spec (w.tbl oldT) rels w hcols
+  obtain ⟨ch, cm, hx, hfalse, htrue⟩ := getExchangeTargets_spec (w.tbl oldT) rels w hcols hnd
   cases ch with
   | false =>
     rw [setRelationsCore_unchanged run e rels w hl ha hne hix hx] at hok
@@ -778,36 +778,40 @@ theorem opSetRelations_panic (run : ProbeRunner) (p : Path) (e : Ent) (mapperIds
 /-- the scan of `getExchangeTargets` refuses a relation that names no relation column of the
     table, without effect -/
 theorem getExchangeTargets_go_bad (T : Table) (w : World) : ∀ (rels : List RelID) (ts : List Ent)
-    (ch : Bool) (cm : Mask),
+    (ch : Bool) (cm : Mask) (seen : List Comp),
     (∃ (r : RelID), r ∈ rels ∧ ¬ ∃ (i : Nat), T.colIdx r.comp = some i ∧
       T.isRel.getD i false = true) →
-    ∃ (k : PanicKind), getExchangeTargets.go T w ts ch cm rels = .panic k w
-  | [], _, _, _, h => by obtain ⟨r, hr, _⟩ := h; cases hr
-  | r :: rest, ts, ch, cm, h => by
+    ∃ (k : PanicKind), getExchangeTargets.go T w ts ch cm seen rels = .panic k w
+  | [], _, _, _, _, h => by obtain ⟨r, hr, _⟩ := h; cases hr
+  | r :: rest, ts, ch, cm, seen, h => by
     simp only [getExchangeTargets.go]
-    cases hc : T.colIdx r.comp with
-    | none => exact ⟨_, rfl⟩
-    | some i =>
-      simp only
-      cases hi : T.isRel.getD i false with
-      | false => exact ⟨_, rfl⟩
-      | true =>
-        have hrest : ∃ (r' : RelID), r' ∈ rest ∧ ¬ ∃ (i : Nat), T.colIdx r'.comp = some i ∧
-            T.isRel.getD i false = true := by
-          obtain ⟨r', hr', hbad⟩ := h
-          rcases List.mem_cons.1 hr' with rfl | hm
-          · exact absurd ⟨i, hc, hi⟩ hbad
-          · exact ⟨r', hm, hbad⟩
-        simp only [Bool.not_true, Bool.false_eq_true, if_false]
-        split
-        · exact getExchangeTargets_go_bad T w rest _ _ _ hrest
-        · exact getExchangeTargets_go_bad T w rest _ _ _ hrest
+    cases hs : seen.contains r.comp with
+    | true => exact ⟨_, rfl⟩
+    | false =>
+      simp only [Bool.false_eq_true, if_false]
+      cases hc : T.colIdx r.comp with
+      | none => exact ⟨_, rfl⟩
+      | some i =>
+        simp only
+        cases hi : T.isRel.getD i false with
+        | false => exact ⟨_, rfl⟩
+        | true =>
+          have hrest : ∃ (r' : RelID), r' ∈ rest ∧ ¬ ∃ (i : Nat), T.colIdx r'.comp = some i ∧
+              T.isRel.getD i false = true := by
+            obtain ⟨r', hr', hbad⟩ := h
+            rcases List.mem_cons.1 hr' with rfl | hm
+            · exact absurd ⟨i, hc, hi⟩ hbad
+            · exact ⟨r', hm, hbad⟩
+          simp only [Bool.not_true, Bool.false_eq_true, if_false]
+          split
+          · exact getExchangeTargets_go_bad T w rest _ _ _ _ hrest
+          · exact getExchangeTargets_go_bad T w rest _ _ _ _ hrest
 
 theorem getExchangeTargets_bad (T : Table) (rels : List RelID) (w : World)
     (h : ∃ (r : RelID), r ∈ rels ∧ ¬ ∃ (i : Nat), T.colIdx r.comp = some i ∧
       T.isRel.getD i false = true) :
     ∃ (k : PanicKind), getExchangeTargets T rels w = .panic k w := by
-  obtain ⟨k, hk⟩ := getExchangeTargets_go_bad T w rels T.targets false Mask.empty h
+  obtain ⟨k, hk⟩ := getExchangeTargets_go_bad T w rels T.targets false Mask.empty [] h
   exact ⟨k, by unfold getExchangeTargets; rw [hk]⟩
 
 end World
@@ -898,7 +902,7 @@ theorem setRelationsCore_deadTarget (run : ProbeRunner) {w : World} {fl : List N
       (w.tbl oldT).ids.length := by rw [setTargets_length, hTex.tlen]
   obtain ⟨rd, hrd, hdz, hda⟩ := hd
   obtain ⟨id, hid', hidr⟩ := hcols rd hrd
-  obtain ⟨ch, cm, hx, hfalse, htrue⟩ := getExchangeTargets_spec (w.tbl oldT) rels w hcols
+  obtain ⟨ch, cm, hx, hfalse, htrue⟩ := getExchangeTargets_spec (w.tbl oldT) rels w hcols hnd
   cases ch with
   | false =>
     -- the dead target would already be stored in the entity's table
